@@ -15,9 +15,6 @@ set_option linter.unusedVariables false
 /-- the symbol of bit `i` of the variable `t` (`decompose_to_symbols`, `translate_argument`) -/
 def bitName (t : String) (i : Nat) : String := s!"{t}.{i}"
 
-/-- a python identifier has no dot -/
-def goodName (n : String) : Bool := !n.toList.contains '.'
-
 /-- the symbols that belong to the variable `t`: `t` itself (a bool) or `t.i` -/
 def Owned (t s : String) : Prop := s = t ∨ ∃ i : Nat, s = bitName t i
 
@@ -83,27 +80,6 @@ def AgreeOff (t : String) (ρ ρ' : QV.Env) : Prop := ∀ s, ¬ Owned t s → ρ
 theorem AgreeOff.refl (t : String) (ρ : QV.Env) : AgreeOff t ρ ρ := fun _ _ => rfl
 
 /-! ### which variables an expression reads -/
-
-mutual
-/-- the expression reads the variable `t` -/
-def mentions (t : String) : PExp → Bool
-  | .name n => n == t
-  | .subs n _ => n == t
-  | .cbool _ => false
-  | .cint _ => false
-  | .cchar _ => false
-  | .unsupported _ => false
-  | .not e => mentions t e
-  | .inv e => mentions t e
-  | .boolop _ vs => mentionsList t vs
-  | .ite c a b => mentions t c || mentions t a || mentions t b
-  | .cmp _ l r => mentions t l || mentions t r
-  | .bin _ l r => mentions t l || mentions t r
-  | .tuple es => mentionsList t es
-def mentionsList (t : String) : List PExp → Bool
-  | [] => false
-  | e :: es => mentions t e || mentionsList t es
-end
 
 mutual
 theorem semW_congr (t : String) (σ σ' : SEnv) (h : ∀ n, n ≠ t → σ n = σ' n) :
